@@ -3,7 +3,7 @@
   Run natively (`.lake/build/bin/driver`) by the harness; the harness runs the real frouros code
   on the same operations and diffs the two streams.
 -/
-import FrourosModel.Dets
+import FrourosModel.Ops
 namespace Frouros
 open Wire
 
@@ -15,6 +15,7 @@ structure Inst where
 
 structure DState where
   insts : List (String × Inst) := []
+  aux : Aux := {}
 
 def DState.get? (st : DState) (id : String) : Option Inst := (st.insts.find? (·.1 == id)).map (·.2)
 def DState.set (st : DState) (id : String) (i : Inst) : DState :=
@@ -54,6 +55,15 @@ def handle (st : DState) (line : String) : DState × String :=
       let i := { i with ex := i.ex.reset, lo := i.lo.reset, hi := i.hi.reset }
       (st.set id i, renderObs i)
     | none => (st, "bad-op")
+  | "ks" :: args => (st, cmdKS args)
+  | "mmd" :: args => (st, cmdMMD args)
+  | "dist" :: args => (st, cmdDist args)
+  | "prob" :: args => (st, cmdProb args)
+  | "pval" :: args => (st, cmdPval args)
+  | "cfg" :: args => (st, cmdCfg args)
+  | "dl" :: args => (st, cmdDownload args)
+  | "sea" :: args => (st, cmdSea args)
+  | "x" :: args => let (a, r) := cmdAux st.aux args; ({ st with aux := a }, r)
   | _ => (st, "bad-op")
 
 partial def loop (h : IO.FS.Stream) (out : IO.FS.Stream) (st : DState) : IO Unit := do
